@@ -43,6 +43,15 @@ func cause(p *ReqPlan) string {
 	if refuse {
 		parts = append(parts, "auth:refuse")
 	}
+	for _, d := range p.Auth {
+		if d.CancelCtx {
+			parts = append(parts, "auth:cancelled-ctx")
+			break
+		}
+	}
+	if p.CancelledRequest {
+		parts = append(parts, "client:cancelled")
+	}
 	if payload {
 		parts = append(parts, "auth:payload")
 	}
@@ -87,7 +96,7 @@ func sameKind(a, b *Violation) bool {
 func (j *judge) minimise(nodes map[string]*node, v Violation) Violation {
 	reproduce := func(group []*ReqPlan) *Violation {
 		j2 := &judge{proj: j.proj, routes: j.routes, tag: j.tag, stats: newStats()}
-		if v.Class != "not-served" {
+		if v.Class != "not-served" && v.Class != "misrouted" {
 			j2.broken = j.broken
 		}
 		j2.execGroup(nodes, group, v.SchedSeed)
@@ -217,6 +226,11 @@ func finalSignature(v *Violation) string {
 		parts = append(parts, cause(focus))
 		if v.Property == "C02" {
 			parts = append(parts, "route:"+shapeTags(focus))
+		}
+	}
+	if v.Property != "C02" {
+		if t := overlapTag(focus); t != "" {
+			parts = append(parts, "route:"+t)
 		}
 	}
 	if v.Concurrent {
